@@ -36,7 +36,7 @@ pub(crate) struct XPubSocketBackend {
 }
 
 impl XPubSocketBackend {
-    fn message_received(&self, peer_id: &PeerIdentity, message: Message) {
+    fn message_received(&self, peer_id: &PeerIdentity, conn: u64, message: Message) {
         let data = match message {
             Message::Message(m) => {
                 if m.len() != 1 {
@@ -56,15 +56,19 @@ impl XPubSocketBackend {
             Some(1) => {
                 // Subscribe
                 if let Some(mut entry) = self.subscribers.get_sync(peer_id) {
-                    entry.subscriptions.push(Vec::from(&data[1..]));
+                    if entry.conn == conn {
+                        entry.subscriptions.push(Vec::from(&data[1..]));
+                    }
                 }
             }
             Some(0) => {
                 // Unsubscribe
                 let sub = Vec::from(&data[1..]);
                 if let Some(mut entry) = self.subscribers.get_sync(peer_id) {
-                    if let Some(index) = entry.subscriptions.iter().position(|s| s == &sub) {
-                        entry.subscriptions.remove(index);
+                    if entry.conn == conn {
+                        if let Some(index) = entry.subscriptions.iter().position(|s| s == &sub) {
+                            entry.subscriptions.remove(index);
+                        }
                     }
                 }
             }
@@ -149,8 +153,15 @@ impl Drop for XPubSocket {
 impl SocketSend for XPubSocket {
     async fn send(&mut self, message: ZmqMessage) -> ZmqResult<()> {
         let mut dead_peers = Vec::new();
+        // The walk is not a snapshot: when the table shrinks under it (subscribers leaving on
+        // other threads) it resumes at an earlier bucket and meets entries again.
+        let mut served = std::collections::HashSet::new();
         let mut iter = self.backend.subscribers.begin_async().await;
         while let Some(mut subscriber) = iter {
+            if !served.insert(subscriber.conn) {
+                iter = subscriber.next_async().await;
+                continue;
+            }
             for sub_filter in &subscriber.subscriptions {
                 if sub_filter.len() <= message.get(0).unwrap().len()
                     && sub_filter.as_slice() == &message.get(0).unwrap()[0..sub_filter.len()]
@@ -197,8 +208,11 @@ impl SocketRecv for XPubSocket {
             match self.fair_queue.next().await {
                 Some((peer_id, Ok(Message::Message(message)))) => {
                     // Process the subscription message internally to update tracking
-                    self.backend
-                        .message_received(&peer_id, Message::Message(message.clone()));
+                    self.backend.message_received(
+                        &peer_id,
+                        self.fair_queue.last_conn(),
+                        Message::Message(message.clone()),
+                    );
                     // Also expose it to the application
                     return Ok(message);
                 }
